@@ -114,7 +114,7 @@ func closeLeaves(f *ssa.Function, req ssa.Value) []closeLeaf {
 			}
 			switch fa.X.Type().String() {
 			case "*net/http.Request":
-				if fa.X == req {
+				if sameAs(fa.X, req) {
 					out = append(out, closeLeaf{"req.Close", x})
 				}
 			case "*net/http.Response":
@@ -428,7 +428,7 @@ func c01(r *Report) {
 			if !ok {
 				continue
 			}
-			if fa, ok := ld.X.(*ssa.FieldAddr); ok && fa.X == req && fieldObj(fa).Name() == "Body" {
+			if fa, ok := ld.X.(*ssa.FieldAddr); ok && sameAs(fa.X, req) && fieldObj(fa).Name() == "Body" {
 				def = d
 			}
 		}
@@ -762,7 +762,7 @@ func responseWrittenRule(r *Report, handle *ssa.Function) {
 	}
 	// the write and the flush go to the client's buffered writer
 	for _, wr := range plainCalls(handle, nResWrite) {
-		ok := anyIn(w.backSlice(wr.Call.Args[1], flowOpt{}), func(v ssa.Value) bool { return v == ssa.Value(handle.Params[3]) })
+		ok := anyIn(w.backSlice(wr.Call.Args[1], flowOpt{}), func(v ssa.Value) bool { return isParamVal(v, handle.Params[3]) })
 		r.Decide("flow", "(*M.Proxy).handle: response written to the client's brw", ok, "destination is the brw parameter", "response written somewhere other than the client's buffered writer", wr.Pos())
 	}
 }
@@ -782,7 +782,7 @@ func requestBodyClosedOnlyByDefer(r *Report, handle *ssa.Function) {
 		if !ok {
 			continue
 		}
-		if fa, ok := ld.X.(*ssa.FieldAddr); ok && fa.X == req && fieldObj(fa).Name() == "Body" {
+		if fa, ok := ld.X.(*ssa.FieldAddr); ok && sameAs(fa.X, req) && fieldObj(fa).Name() == "Body" {
 			n++
 			r.Fail("path", "(*M.Proxy).handle: req.Body.Close() outside the deferred close", "the request body is closed in the middle of the exchange: closing drains what follows the head, which before the CONNECT hand-off is the first bytes of the tunnel (they never reach the target), and before the round trip is the upload", nil, c.Pos())
 		}
